@@ -27,6 +27,7 @@ def run_one(name):
         if r.returncode != 0:
             return name, prop, "patch-does-not-apply", r.stdout[-300:] + r.stderr[-300:]
         env = dict(os.environ, PYVC_ROOT=tmp, PYTHONPATH=tmp, PYTHONDONTWRITEBYTECODE="1",
+                   PYVC_REPLAY_DIR=os.path.join(tmp, "replays"),
                    PYVC_UNIT_BUDGET_S=os.environ.get("PYVC_UNIT_BUDGET_S", "600"))
         r = subprocess.run([os.path.join(HERE, ".venv/bin/python"), "-m", "pyvc.main", prop, "--no-evidence"],
                            cwd=HERE, env=env, capture_output=True, text=True)
